@@ -69,6 +69,12 @@ def gen_cases(tier, seed):
         i += 1
         yield {'family': fmt, 'sizes': [40, 3], 'format': fmt, 'pretty': True, 'idx': i, 'seed': seed, 'tier': tier,
                'swallowed_failure': True}
+    # two dumps in ONE flow (everything that came in -> 'raw', then - a resource deleted - what is published): both finished
+    # descriptors describe their own files
+    for fmt in ('csv', 'json'):
+        i += 1
+        yield {'family': fmt, 'sizes': [5, 3], 'format': fmt, 'pretty': True, 'idx': i, 'seed': seed, 'tier': tier,
+               'raw_dump_before_delete': True}
     # the dumped package is itself a loaded dump (its descriptor already carries bytes / hash / count_of_rows)
     for fmt in ('csv', 'json'):
         i += 1
@@ -104,7 +110,8 @@ def run_case(case):
            'add_filehash_to_path': bool(case.get('filehash')), 'no_resource_hash': bool(case.get('no_resource_hash')),
            'later_step_stops_reading_early': bool(case.get('early_stop')),
            'source_fails_and_later_step_swallows': bool(case.get('swallowed_failure')),
-           'resource_paths': case.get('paths'), 'force_format': not case.get('no_force_format')}
+           'resource_paths': case.get('paths'), 'force_format': not case.get('no_force_format'),
+           'two_dumps_in_one_flow_a_resource_deleted_between': bool(case.get('raw_dump_before_delete'))}
     F = [{'name': 'id', 'type': 'integer'}, {'name': 't', 'type': 'string'}, {'name': 'n', 'type': 'number'}]
     tables = [[{'id': r * 1000 + i, 't': 'żółć-%d "q", x' % i, 'n': 1.5 * i} for i in range(n)]
               for r, n in enumerate(case['sizes'])]
@@ -151,6 +158,9 @@ def run_case(case):
             kw['counters'] = {'datapackage-bytes': None, 'resource-bytes': None}
         if case.get('no_force_format'):
             kw['force_format'] = False
+        if case.get('raw_dump_before_delete'):
+            steps.append(d.dump_to_path(out + '_raw', format=case['format'], pretty_descriptor=case['pretty'], **kw))
+            steps.append(d.delete_resource('res%d' % (len(tables) - 1)))
         steps.append(d.dump_to_path(out, format=case['format'], pretty_descriptor=case['pretty'], **kw))
         if case.get('swallowed_failure'):
             def tolerant(rows):
@@ -211,7 +221,7 @@ def run_case(case):
         def on_event(n, kind, detail):
             # every I/O event is a potential interruption point: the invariant must hold on the directory as it is
             # now, whatever thread performs the event (also decides schedules where writers run concurrently)
-            pr = snapshot_problem('rec')
+            pr = snapshot_problem('rec') or (case.get('raw_dump_before_delete') and snapshot_problem('rec_raw'))
             if pr and not online:
                 online.append('before event %d (%s %s): %s' % (n, kind, detail, pr))
         plan.on_event = on_event
@@ -271,7 +281,12 @@ def run_case(case):
         sampled = True
     cov['crash_event_kind']['__sampled__' if sampled else '__all__'] = 1
 
-    def verify(out, what):
+    def verify(out, what, n_expected=None):
+        if case.get('raw_dump_before_delete') and n_expected is None:
+            verify(out + '_raw', what + ' [first dump of the flow]', len(tables))
+            shutil.rmtree(out + '_raw', ignore_errors=True)
+            n_expected = len(tables) - 1
+        n_expected = len(tables) if n_expected is None else n_expected
         path = os.path.join(out, 'datapackage.json')
         if not os.path.exists(path):
             counters['descriptor_absent_or_partial'] += 1
@@ -295,9 +310,9 @@ def run_case(case):
                     'listed_file_size')
             elif rd.get('hash') is not None and rd.get('hash') != iolab.md5(data):
                 add('listed_file_hash', '%s: %r recorded hash differs from the file' % (what, p), 'listed_file_hash')
-        if len(desc.get('resources', [])) != len(tables) and not case.get('no_force_format'):
+        if len(desc.get('resources', [])) != n_expected and not case.get('no_force_format'):
             add('descriptor_resources', '%s: descriptor lists %d resources of %d' %
-                (what, len(desc.get('resources', [])), len(tables)), 'descriptor_resources')
+                (what, len(desc.get('resources', [])), n_expected), 'descriptor_resources')
     # one run WITHOUT the I/O shims (they re-implement the copy in chunks): the state the real calls leave behind
     code_p, rep_p = crashlab.in_child(lambda: run_dump('plain'), os.path.join(scratch, 'rep.json'))
     counters['crash_points_executed'] += 1
@@ -334,6 +349,7 @@ def run_case(case):
         verify(out, what)
         shutil.rmtree(out, ignore_errors=True)
     shutil.rmtree('rec', ignore_errors=True)
+    shutil.rmtree('rec_raw', ignore_errors=True)
     # leftover temp files of killed children
     return dict(nontrivial=counters['crash_points_executed'] > 0, violations=viol, cov=cov, counters=counters,
                 sample={'config': cfg, 'events': K, 'trace_head': trace[:10], 'trace_tail': trace[-8:]})
